@@ -247,15 +247,6 @@ Definition show_chain (c : chain_case) :=
 Definition mdenote (st : mstate) : option (tensor N) := denote (m_store st) (m_view st).
 Definition result_shape (st : mstate) : list N := shape_of (v_dims (m_view st)).
 
-(* operations whose model is proved against the reference (clip_dim is exercised by the
-   correspondence check only) *)
-Definition proved_op (o : op) : bool :=
-  match o with OClipDim _ _ _ => false | _ => true end.
-
-(* operations for which the error direction is proved as well *)
-Definition error_proved_op (o : op) : bool :=
-  match o with OClipDim _ _ _ | OSliceCopy _ => false | _ => true end.
-
 (* states after each operation; stops at the first error *)
 Fixpoint run_chain (w : bool) (ops : list op) (st : mstate) : res (list mstate) :=
   match ops with
